@@ -29,6 +29,12 @@ def big_graph_probe(ctx):
 def run(ctx):
     rng = ctx.rng
     cases = graphs.case_stream(rng, 70 if ctx.quick else 600, max_e=6 if ctx.quick else 8, accepted_fraction=0.5)
+    # vertex labels that differ by exactly a power of two (8..128), in every run
+    for nm, edges in gen.collision_labelled(rng):
+        for _ in range(2):
+            c2 = graphs.make_case(rng, edges, rng.randint(1, 6), want=rng.random() < 0.5)
+            if c2 is not None:
+                c2 = dict(c2); c2["name"] = nm; cases.append(c2)
     tuned = []
     for c in cases[: (40 if ctx.quick else 300)]:
         for delta in (2.0 ** -60, 1e-17, 1e-15, -1e-15, 1e-12, -1e-12, 1e-6, -1e-6, 1e-3, -1e-3):
@@ -120,5 +126,26 @@ def run(ctx):
             if b.get("status") != a.get("status") or b.get("entries") != a.get("entries") or b.get("cached") != a.get("cached") or b.get("dod") != a.get("dod"):
                 ctx.violation(f"building the same graph twice ({what}) gave different results", r,
                               expected={k: a.get(k) for k in ("status", "dod", "cached")}, observed={k: b.get(k) for k in ("status", "dod", "cached")})
+    # ---- the PUBLIC path: Graph::build_sampler decides exactly as the preprocessing it wraps does (same Ok/Err, same table), whatever
+    # it does with the graph before (externals untouched by edges, repeated externals, any signature shape)
+    pick = [i for i, c in enumerate(cases) if any(v not in set(x for e in c["edges"] for x in e) for v in c["ext"])][: (30 if ctx.quick else 200)]
+    pick += [i for i in range(len(cases)) if i not in pick][: (40 if ctx.quick else 300)]
+    breqs = [dict(reqs[i], op="build", sig=rng.choice([[], [[1]] * len(cases[i]["edges"]), [[0, 1]] * len(cases[i]["edges"])])) for i in pick]
+    for i, r, b in zip(pick, breqs, run_harness(breqs)):
+        a, c = impl[i], cases[i]
+        ctx.case(["public", r["edges"], r["ext"], r["D"], r["sig"]], nontrivial=graphs.nontrivial_graph(c)); ctx.count(f"public_path.{b.get('status')}")
+        if b.get("status") == "panic":
+            ctx.violation("Graph::build_sampler panicked", r, observed=b); continue
+        if a.get("status") not in ("ok", "err"):
+            continue
+        if b.get("status") != a.get("status"):
+            n = len(c["edges"])
+            band = min((abs(c["table"][mk][2]) for mk in range(1, (1 << n) - 1)), default=Fraction(1))
+            exp = ("ok" if c["accepted"] else "err") if band > Fraction(1, 10 ** 9) else a.get("status")
+            ctx.violation(f"Graph::build_sampler returned {b.get('status')}, generate_from_tropical on the same graph {a.get('status')} "
+                          f"(exact oracle: {exp})", r, expected=exp, observed=b.get("status"))
+        elif b.get("status") == "ok" and b.get("table") != a.get("table"):
+            ctx.violation("the table of the sampler returned by Graph::build_sampler differs from generate_from_tropical on the same graph", r,
+                          observed="tables differ")
     ctx.extra["accepted_fraction_impl"] = nacc / max(1, len(cases))
     big_graph_probe(ctx)
